@@ -93,6 +93,13 @@ impl ClassSet {
         }
     }
 
+    /// Close the code points under simple case folding (class sets only exist with the v flag).
+    /// Intersection, subtraction and complement are defined on case-folded operands.
+    fn fold_case(&mut self) {
+        let cps = core::mem::take(&mut self.codepoints);
+        self.codepoints = unicode::add_icase_code_points(cps);
+    }
+
     fn union_operand(&mut self, operand: ClassSetOperand) {
         match operand {
             ClassSetOperand::ClassSetCharacter(c) => {
@@ -231,6 +238,27 @@ enum ClassSetOperand {
     CharacterClassEscape(CodePointSet),
     Class(ClassSet),
     ClassStringDisjunction(ClassSetAlternativeStrings),
+}
+
+impl ClassSetOperand {
+    /// The operand with its code points closed under simple case folding.
+    fn fold_case(self) -> Self {
+        match self {
+            ClassSetOperand::ClassSetCharacter(c) => {
+                let mut cps = CodePointSet::new();
+                cps.add_one(c);
+                ClassSetOperand::CharacterClassEscape(unicode::add_icase_code_points(cps))
+            }
+            ClassSetOperand::CharacterClassEscape(cps) => {
+                ClassSetOperand::CharacterClassEscape(unicode::add_icase_code_points(cps))
+            }
+            ClassSetOperand::Class(mut class) => {
+                class.fold_case();
+                ClassSetOperand::Class(class)
+            }
+            strings => strings,
+        }
+    }
 }
 
 /// A list of strings matching some property, for use in 'v' regular expressions.
@@ -1152,7 +1180,11 @@ where
             // ClassIntersection :: ClassSetOperand && [lookahead ≠ &]
             ClassSetOperator::Intersection => {
                 loop {
-                    let operand = self.consume_class_set_operand(in_negated_class)?;
+                    let mut operand = self.consume_class_set_operand(in_negated_class)?;
+                    if self.flags.icase {
+                        result.fold_case();
+                        operand = operand.fold_case();
+                    }
                     result.intersect_operand(operand);
                     match self.next() {
                         Some(0x5D /* ] */) => return Ok(result),
@@ -1168,7 +1200,11 @@ where
             // ClassSubtraction :: ClassSubtraction -- ClassSetOperand
             ClassSetOperator::Subtraction => {
                 loop {
-                    let operand = self.consume_class_set_operand(in_negated_class)?;
+                    let mut operand = self.consume_class_set_operand(in_negated_class)?;
+                    if self.flags.icase {
+                        result.fold_case();
+                        operand = operand.fold_case();
+                    }
                     result.subtract_operand(operand);
                     match self.next() {
                         Some(0x5D /* ] */) => return Ok(result),
@@ -1204,6 +1240,9 @@ where
                 let negate_set = self.try_consume('^');
                 let mut result = self.consume_class_set_expression(negate_set)?;
                 if negate_set {
+                    if self.flags.icase {
+                        result.fold_case();
+                    }
                     result.codepoints = result.codepoints.inverted();
                 }
                 self.depth -= 1;
